@@ -72,6 +72,9 @@ def replay_candidate(pid, rec, scratch, tier):
     try:
         if mode == "playback":
             return playback(pid, rec, scratch)
+        if mode == "native-eval":
+            from . import smt
+            return smt.native_replay(pid, rec, scratch)
         from . import scenario
         return scenario.replay(pid, rec, scratch)
     except Exception as e:
